@@ -62,6 +62,8 @@ MUTANTS = [
     ("map-tmp-not-cleared", R + "decoder.go", "			} else if vt.T == tSTRUCT {", "			} else if vt.T == tSTRUCT && j == 0 {", ["C07", "C03", "C01"]),
     ("create-desc-without-mutex", R + "desc.go", "	sdsmu.Lock()\n	defer sdsmu.Unlock()\n	if sd := sds.Get(abiType); sd != nil {", "	if sd := sds.Get(abiType); sd != nil {", ["C08"]),
     ("publish-before-prefetch", R + "desc.go", "	sd, err := newStructDescAndPrefetch(rt)\n	if err != nil {\n		rollbackPrefetch()\n		return nil, err\n	}\n	commitPrefetch()\n	sds.Set(abiType, sd)", "	sd, err := newStructDesc(rt)\n	if err != nil {\n		return nil, err\n	}\n	sds.Set(abiType, sd)\n	prefetchStructDescCache[rt] = sd\n	if err := prefetchSubStructDesc(sd); err != nil {\n		rollbackPrefetch()\n		return nil, err\n	}\n	commitPrefetch()", ["C08", "C13"]),
+    ("required-check-covers-64-fields-only", R + "decoder.go", "	for _, fid := range sd.requiredFieldIDs {\n		if !bs.test(fid) {", "	for k, fid := range sd.requiredFieldIDs {\n		if k >= 64 {\n			break\n		}\n		if !bs.test(fid) {", ["C09"]),
+    ("holder-of-recycled-destination-reused-in-place", R + "decoder.go", "		*(*[]byte)(unsafe.Add(base, sd.unknownFieldsOffset)) = ufs.Copy(b)", "		if old := (*[]byte)(unsafe.Add(base, sd.unknownFieldsOffset)); cap(*old) >= ufs.Size() {\n			*old = append((*old)[:0], ufs.Copy(b)...)\n		} else {\n			*old = ufs.Copy(b)\n		}", ["C06"]),
     ("required-check-stops-after-first", R + "decoder.go", "	for _, fid := range sd.requiredFieldIDs {\n		if !bs.test(fid) {", "	for k, fid := range sd.requiredFieldIDs {\n		if k > 1 {\n			break\n		}\n		if !bs.test(fid) {", ["C09"]),
     ("bitset-word-index-wrong-above-4095", R + "bitset.go", "func (s *bitset) set(i uint16) {\n	x, y := i>>6, i&63 // i/64, i%64", "func (s *bitset) set(i uint16) {\n	x, y := (i>>6)&63, i&63 // i/64, i%64", ["C09"]),
     ("required-nil-container-skipped", R + "desc.go", "	f.CanSkipEncodeIfNil = f.Spec == defs.Optional &&", "	f.CanSkipEncodeIfNil = f.Spec != defs.Default &&", ["C09", "C02", "C10"]),
